@@ -92,7 +92,12 @@ func init() {
 	s2Check("C04", "fault_enumeration", "runtime monitoring: device content vs applied-configuration model after PRNG fault sequences (offline, late connection, restart-with-empty-state, connection replacement); re-sync gate monitor",
 		s2Rule, 150, 6000, map[string]int64{"resync_pushes_observed": 100, "mastership_changes": 200, "executions_reaching_final_state": 100},
 		func(c *fw.Case) *engine.Profile {
-			return &engine.Profile{Targets: two, MinOps: 4, MaxOps: 10, PMulti: 25, PPoison: 10, PEq: 5, PDevReject: 12, PDelete: 35, PRollback: 12, PEnv: 60, PNoWait: 30, PSync: 15, PStartOffline: 50, PDevFault: 10, PSerializable: 25, Paths: "rich"}
+			p := &engine.Profile{Targets: two, MinOps: 4, MaxOps: 10, PMulti: 25, PPoison: 10, PEq: 5, PDevReject: 12, PDelete: 35, PRollback: 12, PEnv: 60, PNoWait: 30, PSync: 15, PStartOffline: 50, PDevFault: 10, PSerializable: 25, Paths: "rich"}
+			if c.Index%2 == 0 {
+				p.PStaleWriter = 40 // elections and re-sync bookkeeping overlap with applies
+				p.PNoWait = 70
+			}
+			return p
 		})
 	s2Check("C06", "exploration", "runtime monitoring: rollback verdicts, stored configuration and device vs the model's pre-change snapshots",
 		s2Rule, 150, 6000, map[string]int64{"rollbacks": 250, "executions_reaching_final_state": 100},
@@ -128,6 +133,9 @@ func init() {
 			p := &engine.Profile{Targets: two, MinOps: 4, MaxOps: 9, PMulti: 25, PPoison: 8, PEq: 3, PDevReject: 5, PDelete: 25, PRollback: 8, PEnv: 85, PNoWait: 50, PSync: 10, PStartOffline: 40, PDevFault: 10, PSerializable: 25, Paths: "basic"}
 			if c.Index%2 == 1 {
 				p.PForeign = 25 // competing relations: another onos-config node's CONTROLS relation comes and goes
+			}
+			if c.Index%3 == 0 {
+				p.PStaleWriter = 40
 			}
 			if c.Index%4 == 2 {
 				p.PCrash = 100 // a restarted process finds the CONTROLS relations of its previous incarnation in the topology
